@@ -459,6 +459,10 @@ class Evidence:
                "violations": self.violations}
         part = os.environ.get("VERIF_EVIDENCE_PART")
         path = os.path.join(EVID, self.prop + ".json")
+        if COQ != COQ_SRC and not part:
+            # a run against a scratch copy of the repository (testing the checks): never overwrite the evidence of /repo
+            os.makedirs(os.path.join(OUT, "evidence_scratch"), exist_ok=True)
+            path = os.path.join(OUT, "evidence_scratch", self.prop + ".json")
         if part:   # a property decided by several layers: ./check merges the parts
             os.makedirs(os.path.join(OUT, "evidence_parts"), exist_ok=True)
             path = os.path.join(OUT, "evidence_parts", "%s.%s.json" % (self.prop, part))
